@@ -266,7 +266,9 @@ void* _mi_heap_realloc_zero(mi_heap_t* heap, void* p, size_t newsize, bool zero)
     // if (newsize < size) { mi_track_mem_noaccess((uint8_t*)p + newsize, size - newsize); }
     return p;  // reallocation still fits and not more than 50% waste
   }
-  void* newp = mi_heap_malloc(heap,newsize);
+  // when zeroing, zero the full new block so the bytes between `newsize` and its usable size are zero too
+  // (a later in-place or copying re-allocation exposes them)
+  void* newp = (zero ? mi_heap_zalloc(heap,newsize) : mi_heap_malloc(heap,newsize));
   if mi_likely(newp != NULL) {
     if (zero && newsize > size) {
       // also set last word in the previous allocation to zero to ensure any padding is zero-initialized
